@@ -436,6 +436,10 @@ def site_guards(site):
         # `E.and_then(f)` / `E.filter(f)` / `E.map(..)` is Some  =>  E is Some, and (and_then, filter)
         # whatever dominates every Some / true return of f holds for E's payload
         e = g[1] if len(g) > 1 and isinstance(g[1], tuple) else None
+        # std predicates with an exact meaning on the code point: c.is_ascii_digit() <=> '0' <= c <= '9'
+        if g[0] == "true" and e is not None and e[0] == "call" and e[1].endswith("::is_ascii_digit") and len(e[2]) == 1 and ("char" in e[1] or "u8" in e[1]):
+            out.append("true: Le(48, %s)" % show(e[2][0]))
+            out.append("true: Le(%s, 57)" % show(e[2][0]))
         if g[0] == "some" and e is not None and e[0] == "call" and len(e[2]) == 2 and prog is not None and \
                 e[1].rsplit("::", 1)[-1] in ("and_then", "filter") and "Option" in e[1]:
             inner, clo = e[2]
